@@ -1,1 +1,6 @@
-//! harness package hsec
+//! harness package hsec (C15): scripted in-memory duplex transport, a deterministic two-task
+//! executor, run-time test certificates and a socket proxy for the descriptor-backed layers.
+pub mod certs;
+pub mod duplex;
+pub mod proxy;
+pub mod watchdog;
